@@ -3,6 +3,7 @@
   protoclusters as features, RuleDetectionResults, HMMDetectionResults).
 -/
 import ASV.Proofs.Results
+import ASV.Proofs.ResultsOther
 namespace ASV.Results
 open ASV
 
@@ -101,8 +102,12 @@ theorem CdsRes.fromJson_toJson (ctx : Ctx) (c : CdsRes) (hv : c.valid ctx = true
 
 theorem Proto.fromJson_toJson (p : Proto) (hv : p.valid = true) :
     Proto.fromJson p.toJson = .reuse p.detach := by
-  simp only [Proto.valid, Proto.textOk, Bool.and_eq_true, beq_iff_eq] at hv
-  obtain ⟨⟨hloc, hcore⟩, hctor⟩ := hv
+  simp only [Proto.valid, Bool.and_eq_true, Bool.not_eq_true'] at hv
+  obtain ⟨⟨hl, hc⟩, hctor⟩ := hv
+  have hloc : locFromString (locToString p.loc) = some p.loc :=
+    locFromString_locToString p.loc (by intro h; rw [h] at hl; simp at hl)
+  have hcore : locFromString (locToString p.core) = some p.core :=
+    locFromString_locToString p.core (by intro h; rw [h] at hc; simp at hc)
   have hctor' : Proto.ctorOk p.loc p.core p.product = .reuse () := by
     cases h : Proto.ctorOk p.loc p.core p.product with
     | reuse u => rfl
@@ -123,7 +128,7 @@ theorem Proto.toJson_attach_detach (p : Proto) (n : Int) (e : Bool)
   cases p; simp_all [Proto.detach, Proto.attach]
 
 theorem Proto.detach_valid (p : Proto) (h : p.valid = true) : p.detach.valid = true := by
-  simpa [Proto.valid, Proto.textOk, Proto.detach] using h
+  simpa [Proto.valid, Proto.detach] using h
 
 theorem Proto.detach_detach (p : Proto) : p.detach.detach = p.detach := rfl
 
